@@ -189,6 +189,29 @@ theorem join_names_star (qy : Query) (j : JoinInfo) (r : Line) (s : List Value) 
     (pairRow qy.table j r s).2.map ((pairRow qy.table j r s).1.get .table) = (r.row ++ s).map some :=
   ⟨rfl, star_values qy.table r.row r.text j s h hr hs⟩
 
+/-- **self-join** (the joined table is the queried table itself, read from a second file: same name, same columns;
+`NamesOk` cannot hold there): every table-qualified name addresses the JOINED row, every plain name — and `input` —
+the QUERIED row, so both sides stay addressable -/
+theorem join_names_self (qy : Query) (j : JoinInfo) (r : Line) (s : List Value) (h : SelfOk qy.table)
+    (hname : j.joined.name = qy.table.name) (hcols : j.joined.columns = qy.table.columns)
+    (hr : qy.table.columns.length = r.row.length) :
+    (∀ n v, (n, v) ∈ qy.table.columns.zip s →
+      (pairRow qy.table j r s).1.get .table (qy.table.name ++ "." ++ n) = some v) ∧
+    (∀ n w, (n, w) ∈ qy.table.columns.zip r.row → (pairRow qy.table j r s).1.get .table n = some w) ∧
+    (pairRow qy.table j r s).1.get .table "input" = some (.text r.text) :=
+  ⟨fun n v hm => lastGet_self_qualified qy.table r.row r.text j s h hname hcols hr n v hm,
+   (lastGet_self_plain qy.table r.row r.text j s h hname hcols hr).1,
+   (lastGet_self_plain qy.table r.row r.text j s h hname hcols hr).2⟩
+
+/-- self-join: `*` lists the queried table's columns under their plain names followed by the joined side's under
+the qualified names, with the queried row's values followed by the joined row's -/
+theorem join_names_star_self (qy : Query) (j : JoinInfo) (r : Line) (s : List Value) (h : SelfOk qy.table)
+    (hname : j.joined.name = qy.table.name) (hcols : j.joined.columns = qy.table.columns)
+    (hr : qy.table.columns.length = r.row.length) (hs : qy.table.columns.length = s.length) :
+    (pairRow qy.table j r s).2 = qy.table.columns ++ qy.table.columns.map (fun n => qy.table.name ++ "." ++ n) ∧
+    (pairRow qy.table j r s).2.map ((pairRow qy.table j r s).1.get .table) = (r.row ++ s).map some :=
+  star_values_self qy.table r.row r.text j s h hname hcols hr hs
+
 /-- **the side of `ON` is irrelevant**: `ON a.x = b.y` and `ON b.y = a.x` lower to the same join (`resolveJoin` =
 `transform_join`), whenever the joined table is not the queried table itself -/
 theorem join_side_irrelevant (fromTable : String) (on : OnClause) (hne : on.joinerTable ≠ fromTable) :
@@ -231,6 +254,7 @@ def exJoined : List Line :=
    ⟨[], [.text [97], .int 3, .null]⟩, ⟨[], [.text [98], .null, .null]⟩]
 
 example : NamesOk exT exJ := by decide
+example : SelfOk exT := by decide
 example : (indexOf? exQ.table.columns exJ.joinerColumn).isSome = true := by decide
 example : ∃ idx, loadJoin exJ exJoined = .ok idx := ⟨_, rfl⟩
 -- duplicates on the joined side, a NULL key and a non-admitted line: two partners, in file order
